@@ -186,6 +186,13 @@ func c10Eval(c *ctx, cs c10Case) {
 	key := fmt.Sprint(ref.Print(cs.Tpl), tplVars, cs.Counts, cs.Step1)
 	c.Note(rng.HashStr(key), nested && len(ellipsisNames(tplVars)) >= 1)
 
+	tplBefore := real.SnapItem(tpl)
+	defer func() {
+		// the template is immutable: whatever was expanded from it, it still reads the same
+		if d := tplBefore.Diff(real.SnapItem(tpl)); d != "" {
+			c.Violation("C10/template-changed-by-expansion", fmt.Sprintf("%s; template %s counts %v", d, clipS(ref.Print(cs.Tpl)), cs.Counts), cs)
+		}
+	}()
 	if len(cs.Step1) == 0 {
 		var got ast.ItemNode
 		o := real.Try(func() { got = tpl.FillVariables(countsRaw(cs.Counts)) })
@@ -515,7 +522,33 @@ func runC10(c *ctx) {
 		}
 		c10Eval(c, cs)
 	})
-	c.Required = []string{"one-step", "two-step", "individual-fill", "random-template", "nothing-to-expand"}
+	// many remaining ellipses (names with two-digit numbers) and large counts
+	for _, n := range []int{8, 9, 10, 11, 12, 25, 100} {
+		for _, tplText := range []int{0, 1, 2} {
+			var tpl *ref.Item
+			inner := func(name string) *ref.Item {
+				return &ref.Item{Kind: ref.L, Children: []*ref.Item{{Kind: ref.U1, Slots: []ref.Slot{{Var: name}}}, {Var: "...[0]"}}}
+			}
+			switch tplText {
+			case 0: // an unfilled ellipsis inside a group repeated n+1 times
+				tpl = &ref.Item{Kind: ref.L, Children: []*ref.Item{inner("a"), {Var: "...[1]"}}}
+			case 1: // the same with something after the outer ellipsis
+				tpl = &ref.Item{Kind: ref.L, Children: []*ref.Item{inner("a"), {Var: "...[1]"}, {Kind: ref.A, AVar: "tail", AMin: 0, AMax: -1}}}
+			default: // two levels of repetition around the unfilled one
+				mid := &ref.Item{Kind: ref.L, Children: []*ref.Item{inner("a"), {Var: "...[1]"}}}
+				tpl = &ref.Item{Kind: ref.L, Children: []*ref.Item{mid, {Var: "...[2]"}}}
+			}
+			counts := map[string]int{"...[1]": n}
+			if tplText == 2 {
+				counts = map[string]int{"...[1]": 3, "...[2]": n / 4}
+			}
+			c.Class("many-remaining-ellipses")
+			c10Eval(c, c10Case{Tpl: tpl, Counts: counts})
+			// and then the remaining ones are filled, each by the name it was given
+			c10Eval(c, c10Case{Tpl: tpl, Counts: map[string]int{"...[1]": n, "...[0]": 1}, Step1: []string{"...[1]"}})
+		}
+	}
+	c.Required = []string{"many-remaining-ellipses", "one-step", "two-step", "individual-fill", "random-template", "nothing-to-expand"}
 }
 
 func replayC10(c *ctx, raw json.RawMessage) {
